@@ -310,8 +310,8 @@ def run(ctx, args):
     ctx.build("Props/C06.vo")
     ctx.trusted.append("lxml/libxml2 XPath engine as the reference Ref.v is validated against; cssselect as CSS translator (oracle)")
 
-    n_docs = 28 if quick else 120
-    per_doc = 90 if quick else 300
+    n_docs = 28 if quick else 90
+    per_doc = 90 if quick else 250
     docs = FIXED_DOCS + [gen_doc(rng) for _ in range(n_docs)]
     preamble = []
     cases = []
@@ -369,7 +369,7 @@ def run(ctx, args):
                               "wild": wild})
                 terms.append("run_case T%d %s %s %s" % (di, nsmaps[key], xpath_ast.coq_ast(tup), xq.coq_pos(pos)))
     req = xq.REQ + "\n".join(preamble) + "\n"
-    results = ctx.coq_eval("c06_cases", req, terms, chunk=150)
+    results = xq.coq_eval_retry(ctx, "c06_cases", req, terms, chunk=150)
 
     n_a = n_b = n_c = n_sub = 0
     for case, r in zip(cases, results):
@@ -558,7 +558,7 @@ def css(ctx, docs):
             cases.append({"sel": sel, "xpath": xp, "real": real, "tree": tree, "node": node, "eff": eff, "doc": safe_str(d.root),
                           "ctx": list(pos), "ref_xp": ref_xp})
             terms.append("run_case C%d %s %s %s" % (di, xq.coq_nsmap(eff), xpath_ast.coq_ast(ast), xq.coq_pos(pos)))
-    res = ctx.coq_eval("c06_css", xq.REQ + "\n".join(pre) + "\n", terms, chunk=150)
+    res = xq.coq_eval_retry(ctx, "c06_css", xq.REQ + "\n".join(pre) + "\n", terms, chunk=150)
     n_in = 0
     for c, r in zip(cases, res):
         if r is None:
